@@ -1221,7 +1221,7 @@ def scen_C07(ctx):
     # L_cache: the model of the buffer cache (Cache.v, proved transparent for >= 2 chunks) against the real rabuf
     import scen_cache as SC
     rule0 = ctx.rule
-    SC.scen_cache(ctx, ctx.scale(60, 1000), ctx.scale(30, 500))
+    SC.scen_cache(ctx, ctx.scale(60, 1000), ctx.scale(30, 500), ctx.scale(30, 400))
     ctx.rule = rule0 + ' || ' + ctx.rule
     if not [k for k in C.known_findings() if k.get('property') == 'C07']:
         ctx.known = [k for k in ctx.known if 'permille-below-1000' not in k]
@@ -1931,7 +1931,7 @@ def scen_C16(ctx):
                 'the largest file (so that each of the three files and each chunk is in turn the first refused write), flush/sync_all/sync_data is '
                 'called, the limit is lifted, everything is read back (memory view must equal the ideal map), a second flush must succeed and the '
                 'files must then equal the model image byte for byte; an Ok under the limit must mean the snapshot is complete (checked with a snap '
-                'right after); an error when every file fits below the limit is flagged; `table first`: small key and value files with a 2048/8192-bucket table and a limit between them, so that the table file - the last one written - is the first refused write of flush, sync_all and sync_data each; `db level`: FileDb::sync_all/sync_data over three maps of which one (visited neither first nor last) is refused: the error must be reported, the map stay dirty, and the call succeed after the limit is lifted; distinct = distinct (history, threshold) pairs')
+                'right after); an error when every file fits below the limit is flagged; `table first`: small key and value files with a 2048/8192-bucket table and a limit between them, so that the table file - the last one written - is the first refused write of flush, sync_all and sync_data each; `db level`: FileDb::sync_all/sync_data over three maps of which one (visited neither first nor last) is refused: the error must be reported, the map stay dirty, and the call succeed after the limit is lifted; L_cache class fault: real rabuf under a file-size limit switched on and off in the middle of random call sequences vs the model Cache_fault.v, line by line (the state a refused call leaves, the file the OS sees, the recovery flush); distinct = distinct (history, threshold) pairs')
     ladder = [0, 1, 100, 128, 129, 192, 193, 200, 256, 400, 1000, 2000, 4095, 4096, 4097, 5000, 8192, 8193, 12288, 16384, 20000, 40000, 100000,
               131071, 131072, 131073, 200000, 262144, 300000, 1 << 20, 1 << 24]
 
@@ -2013,6 +2013,9 @@ def scen_C16(ctx):
             for L in (Ls if not ctx.quick else Ls[1:]):
                 cases.append((len(cases), 100 + len(cases) % 7, L, sy, n))
     parallel(one, cases)
+    # the buffer itself under a refused write: real rabuf vs Cache_fault.v (what a refused call leaves, what the recovery flush writes)
+    import scen_cache as SC
+    SC.scen_cache(ctx, 0, 0, ctx.scale(80, 800), probes=False)
 
 
 SCENARIOS['C16'] = scen_C16
